@@ -680,31 +680,34 @@ def compare_v8(decisions):
     return len(uniq), classes, unknown, nexc
 
 
-# the alphabet over which the grammar fragment of coq/Regex/Grammar.v is enumerated (every symbol satisfies frag_char)
-FRAGMENT_ALPHABET = list("a.|()?*+:^$=!<")
+# the alphabet over which the grammar fragment of coq/Regex/Grammar.v is enumerated
+FRAGMENT_ALPHABET = list("a.|()?*+:^$=!<\\dbw/]")
 
 
 def model_recognises(strings):
-    """extracted recogniser of the grammar fragment: [(in_fragment, recognises without u, recognises with u)]"""
+    """extracted recogniser of the grammar fragment:
+    [(in_fragment without u, in_fragment with u, recognises without u, recognises with u)]"""
     out = run_model("regex", "frag", [enc_str(s) for s in strings])
-    return [tuple(int(x) != 0 for x in ln.split()[:3]) for ln in out]
+    return [tuple(int(x) != 0 for x in ln.split()[:4]) for ln in out]
 
 
-def compare_grammar_v8(maxlen, alphabet=None):
-    """Grammar.v (through its recogniser, proved sound and complete for `Pattern u` on the fragment alphabet) vs V8 on
-    every string over the fragment alphabet up to maxlen that satisfies in_fragment, in both modes.
-    Returns (n_in_fragment, n_accepted, mismatches)."""
+def compare_grammar_v8(maxlen, alphabet=None, extra=()):
+    """Grammar.v (through its recogniser, proved sound and complete for `Pattern u`) vs V8 on every string over the
+    fragment alphabet up to maxlen (plus `extra` strings) that satisfies in_fragment in the respective mode.
+    Returns (n_compared, n_accepted, mismatches)."""
     alphabet = alphabet or FRAGMENT_ALPHABET
-    strs = list(gen_exhaustive(maxlen, alphabet))
+    strs = list(gen_exhaustive(maxlen, alphabet)) + list(extra)
     rec = model_recognises(strs)
-    keep = [(s, r) for s, r in zip(strs, rec) if r[0]]      # `(?<x` (named group) is outside the fragment
-    v8n = v8_verdicts([(s, "") for s, _ in keep])
-    v8u = v8_verdicts([(s, "u") for s, _ in keep])
+    cn = [(s, r[2]) for s, r in zip(strs, rec) if r[0]]
+    cu = [(s, r[3]) for s, r in zip(strs, rec) if r[1]]
+    v8n = v8_verdicts([(s, "") for s, _ in cn])
+    v8u = v8_verdicts([(s, "u") for s, _ in cu])
     mism = []
-    for (s, (_, okn, oku)), tn, tu in zip(keep, v8n, v8u):
-        if tn is None or tu is None or okn != (not tn) or oku != (not tu):
-            mism.append({"kind": "grammar", "pattern": s, "recognises": okn, "recognises_u": oku, "v8_throws": tn, "v8_throws_u": tu})
-    return len(keep), sum(1 for _, r in keep if r[1]) + sum(1 for _, r in keep if r[2]), mism
+    for mode, cases, res in (("", cn, v8n), ("u", cu, v8u)):
+        for (s, ok), t in zip(cases, res):
+            if t is None or ok != (not t):
+                mism.append({"kind": "grammar", "pattern": s, "flags": mode, "recognises": ok, "v8_throws": t})
+    return len(cn) + len(cu), sum(1 for _, ok in cn if ok) + sum(1 for _, ok in cu if ok), mism
 
 
 def compare_history(seqs):
@@ -807,7 +810,7 @@ def compare_all(tier="quick", seed=1):
         counts["debug_seq_items"] = n; mism += m
 
     # ---- (6) the specification side: V8
-    ng, ngok, gm = compare_grammar_v8(6 if thorough else 5)
+    ng, ngok, gm = compare_grammar_v8(5 if thorough else 4, extra=gen_sampled(rng, 300000 if thorough else 60000, 7, FRAGMENT_ALPHABET))
     counts["grammar_strings"] = ng; counts["grammar_accepted"] = ngok
     nv, classes, unknown, nexc = compare_v8(flat)
     counts["v8_compared"] = nv
